@@ -47,6 +47,11 @@ class Ctx:
         self.extra = {}
         os.makedirs(os.path.join(EVID, 'replay', prop), exist_ok=True)
         os.makedirs(BUILD, exist_ok=True)
+        # per-run scratch directory: concurrent runs of checks never share generated files
+        from harness import tlc as _tlc
+        self.scratch = os.path.join(BUILD, 'run-%s-%s-%d' % (prop, tier, os.getpid()))
+        os.makedirs(self.scratch, exist_ok=True)
+        _tlc.BUILD = self.scratch
 
     # ---- bookkeeping
     def pick(self, quick, thorough):
@@ -123,6 +128,8 @@ class Ctx:
         }
         with open(os.path.join(EVID, self.prop + '.json'), 'w') as f:
             json.dump(ev, f, indent=1, default=str)
+        import shutil
+        shutil.rmtree(self.scratch, ignore_errors=True)
         print('[%s] tier=%s states=%d transitions=%d impl-traces=%d evaluations=%d nontrivial=%d violations=%d wall=%.1fs' % (
             self.prop, self.tier, self.states, self.transitions, self.traces, self.evaluations,
             len(self.nontrivial), n_viol, wall), flush=True)
